@@ -460,13 +460,14 @@ def activity(isotope, mass, env, exposure, rest_times):
             U = flux*initialXS*3600*1e-24*exposure
             # Column V: nv2s2t+L2*t
             V = (env.fluence*effectiveXS*3600*1e-24+lam)*exposure
-            # Column W: L/(L-nvs1+nvs2)
-            W = lam/(lam-flux*initialXS*3600*1e-24+env.fluence*effectiveXS*3600*1e-24)
-            # Column X: V#*[e(-S#)-e(U#)]
-            if abs(U) < 1e-10 and abs(V) < 1e-10:
-                precision_correction = W * (V-U+(V+U)/2)
-            else:
-                precision_correction = W * (exp(-U)-exp(-V))
+            # Column W: L/(L-nvs1+nvs2) = lam*exposure/(V-U)
+            # Column X: W*[e(-U)-e(-V)], written as
+            #    lam*exposure * exp(-min(U,V)) * (1-exp(-|V-U|))/|V-U|
+            # which keeps its precision for small U and V and for U near V,
+            # and is never negative.
+            delta = abs(V-U)
+            precision_correction = lam*exposure*exp(-min(U, V)) * (
+                -expm1(-delta)/delta if delta > 0 else 1.)
 
             activity = root*precision_correction
             if activity < 0:
